@@ -333,11 +333,11 @@ def cbprog(route: int, v: int, w: int, second: bool) -> None:
 cbprog.ranges = lambda consts: dict(route=(0, 4), v=(-3, 3), w=(-3, 3))
 
 
-def discprog(v: int, w: int, nested: bool) -> None:
+def discprog(v: int, w: int, nested: bool, disc: bool) -> None:
     """An input of an expression is updated inside discard_events(p) (events of p are dropped, the values stay): reading the
     expression afterwards still has to give what plain Python computes from the current inputs."""
     from param.parameterized import discard_events, batch_call_watchers
-    nested = pickbool(nested)
+    nested, disc = pickbool(nested), pickbool(disc)
     with untraced():
         p = PAB()
     e = p.param.a.rx() * 2
@@ -345,14 +345,17 @@ def discprog(v: int, w: int, nested: bool) -> None:
     e.rx.value
     f.rx.value
     assume(v != 0)
-    if nested:
+    if not disc:
+        with batch_call_watchers(p):         # the same update in a plain batch, for comparison
+            p.a = v
+    elif nested:
         with batch_call_watchers(p):
             with discard_events(p):
                 p.a = v
     else:
         with discard_events(p):
             p.a = v
-    info = {'updated_inside_discard_events': True, 'nested_in_batch': nested}
+    info = {'updated_inside_discard_events': disc, 'nested_in_batch': nested}
     check('C09.value', e.rx.value == p.a * 2 and f.rx.value == p.a + p.b, dict(info, e=e.rx.value, f=f.rx.value, a=p.a))
     p.b = w
     check('C09.value', f.rx.value == p.a + p.b, dict(info, after_other_update=True, f=f.rx.value, a=p.a, b=p.b))
